@@ -1260,9 +1260,9 @@ namespace chaiscript {
           : AST_Node_Impl<T>(std::move(t_ast_node_text), AST_Node_Type::Try, std::move(t_loc), std::move(t_children)) {
       }
 
+      /// Runs the first catch clause that accepts \p t_except. Must be called from inside the handler
+      /// that caught the exception: when no clause accepts it, the exception is rethrown unchanged.
       Boxed_Value handle_exception(const chaiscript::detail::Dispatch_State &t_ss, const Boxed_Value &t_except) const {
-        Boxed_Value retval;
-
         size_t end_point = this->children.size();
         if (this->children.back()->identifier == AST_Node_Type::Finally) {
           assert(end_point > 0);
@@ -1274,8 +1274,7 @@ namespace chaiscript {
 
           if (catch_block.children.size() == 1) {
             // No variable capture
-            retval = catch_block.children[0]->eval(t_ss);
-            break;
+            return catch_block.children[0]->eval(t_ss);
           } else if (catch_block.children.size() == 2 || catch_block.children.size() == 3) {
             const auto name = Arg_List_AST_Node<T>::get_arg_name(*catch_block.children[0]);
 
@@ -1287,19 +1286,16 @@ namespace chaiscript {
 
               if (catch_block.children.size() == 2) {
                 // Variable capture
-                retval = catch_block.children[1]->eval(t_ss);
-                break;
+                return catch_block.children[1]->eval(t_ss);
               }
             }
           } else {
-            if (this->children.back()->identifier == AST_Node_Type::Finally) {
-              this->children.back()->children[0]->eval(t_ss);
-            }
             throw exception::eval_error("Internal error: catch block size unrecognized");
           }
         }
 
-        return retval;
+        // no clause accepted the exception: it keeps travelling outward
+        throw;
       }
 
       Boxed_Value eval_internal(const chaiscript::detail::Dispatch_State &t_ss) const override {
@@ -1307,26 +1303,33 @@ namespace chaiscript {
 
         chaiscript::eval::detail::Scope_Push_Pop spp(t_ss);
 
+        const bool has_finally = this->children.back()->identifier == AST_Node_Type::Finally;
+
         try {
-          retval = this->children[0]->eval(t_ss);
-        } catch (const exception::eval_error &e) {
-          retval = handle_exception(t_ss, Boxed_Value(std::ref(e)));
-        } catch (const std::runtime_error &e) {
-          retval = handle_exception(t_ss, Boxed_Value(std::ref(e)));
-        } catch (const std::out_of_range &e) {
-          retval = handle_exception(t_ss, Boxed_Value(std::ref(e)));
-        } catch (const std::exception &e) {
-          retval = handle_exception(t_ss, Boxed_Value(std::ref(e)));
-        } catch (Boxed_Value &e) {
-          retval = handle_exception(t_ss, e);
+          try {
+            retval = this->children[0]->eval(t_ss);
+          } catch (const exception::eval_error &e) {
+            retval = handle_exception(t_ss, Boxed_Value(std::ref(e)));
+          } catch (const std::runtime_error &e) {
+            retval = handle_exception(t_ss, Boxed_Value(std::ref(e)));
+          } catch (const std::out_of_range &e) {
+            retval = handle_exception(t_ss, Boxed_Value(std::ref(e)));
+          } catch (const std::exception &e) {
+            retval = handle_exception(t_ss, Boxed_Value(std::ref(e)));
+          } catch (Boxed_Value &e) {
+            retval = handle_exception(t_ss, e);
+          }
         } catch (...) {
-          if (this->children.back()->identifier == AST_Node_Type::Finally) {
+          // something leaves this try statement: an exception no clause accepted (or that cannot
+          // be represented in script), one thrown by a catch block, or a return/break/continue.
+          // The finally block still runs, exactly once.
+          if (has_finally) {
             this->children.back()->children[0]->eval(t_ss);
           }
           throw;
         }
 
-        if (this->children.back()->identifier == AST_Node_Type::Finally) {
+        if (has_finally) {
           retval = this->children.back()->children[0]->eval(t_ss);
         }
 
